@@ -712,6 +712,24 @@ class Interp:
             cx.ctl.pop()
         return V("dict", elem=v, deps=k.deps)
 
+    def _copy_keeps_parent(self, kind):
+        """does copy.copy() of an explainable value of this kind keep the original as recorded parent?"""
+        memo = self.__dict__.setdefault("_copy_memo", {})
+        if kind in memo:
+            return memo[kind]
+        cls = {"EQ": "ExplainableQuantity", "EHQ": "ExplainableHourlyQuantities", "EMPTY": "EmptyExplainableObject",
+               "EOBJ": "ExplainableObject"}.get(kind)
+        keeps = False
+        if cls in self.pm.classes:
+            owner, m = self.pm.find_method(cls, "__copy__")
+            if m is not None:
+                keeps = any(isinstance(k, ast.keyword) and k.arg in ("left_parent", "right_parent") and norm(k.value) == "self"
+                            for k in ast.walk(m))
+        elif cls is None:
+            keeps = all(self._copy_keeps_parent(k) for k in ("EQ", "EHQ", "EMPTY"))
+        memo[kind] = keeps
+        return keeps
+
     def ev_Lambda(self, e, env, cx):
         # a closure: evaluated at its call sites (predicate / key helpers passed to an extracted method)
         return V("lambda", node=e, const=dict(env), deg={})
@@ -1019,6 +1037,11 @@ class Interp:
             return raw(alld, deg={})
         if n == "copy":
             if a0.k == "E":
+                # copy(x) runs the class's __copy__: the explainable classes that define their own record x as parent;
+                # the base one (used by hourly quantities) builds a parent-less duplicate — read from the source
+                keeps = all(self._copy_keeps_parent(k) for k in (a0.ek or {"?"}))
+                if not keeps:
+                    return V("E", anc=F(), deps=a0.deps | cx.ctldeps(), deg=a0.deg, fresh=True, label=a0.label, ek=a0.ek)
                 return V("E", anc=a0.anc, deps=a0.deps | cx.ctldeps(), deg=a0.deg, fresh=True, label=a0.label, ek=a0.ek,
                          alts=combine_alts([a0], cx.ctldeps()))
             return V(a0.k, a0.cls, a0.is_self, a0.elem, deps=a0.deps, deg=a0.deg, carrier=a0.carrier, recv=a0.recv)
